@@ -58,7 +58,16 @@ fn decode(b: &[u8]) -> Option<(u64, u64, u64, u64)> {
 
 struct Outcome { lines: Vec<String>, fails: Vec<(String, String)>, hits: u64, interleaved: bool, crashes: u64 }
 
+/// a panic inside the cache code is an observation (C07 "never wedges": a panic under `DiskCache`'s mutex poisons it), not a harness crash
 fn run_case(acts: &[Act]) -> Outcome {
+    match std::panic::catch_unwind(|| run_case_inner(acts)) {
+        Ok(o) => o,
+        Err(p) => { let msg = p.downcast_ref::<String>().cloned().or_else(|| p.downcast_ref::<&str>().map(|s| s.to_string())).unwrap_or_default();
+            Outcome { lines: vec!["new".into()], fails: vec![("panic_in_cache_code".into(), format!("the real LruDiskCache panicked during this interleaving: {}", msg))], hits: 0, interleaved: false, crashes: 0 } }
+    }
+}
+
+fn run_case_inner(acts: &[Act]) -> Outcome {
     let dir = tempfile::tempdir().unwrap();
     let root: PathBuf = dir.path().join("cache");
     let mut cache = LruDiskCache::new(root.clone(), 1 << 30).unwrap();
@@ -111,7 +120,9 @@ fn run_case(acts: &[Act]) -> Outcome {
             Act::Evict(k) => { let _ = cache.remove(keyname(*k)); empty_meta.remove(&keyname(*k)); }
             Act::Crash => {
                 // the process dies: nothing is cleaned up (temp files stay on disk), memory is gone
-                for t in th.iter_mut() { if let Th::PutWriting { entry, .. } = std::mem::replace(t, Th::Idle) { std::mem::forget(entry); } }
+                for t in th.iter_mut() { if let Th::PutWriting { mut entry, .. } = std::mem::replace(t, Th::Idle) {
+                    // forget the handle (no destructor: the temp file stays on disk, as after a kill) but do not leak its descriptor
+                    let fd = std::os::unix::io::AsRawFd::as_raw_fd(entry.as_file_mut()); std::mem::forget(entry); unsafe { libc::close(fd); } } }
                 writers_live = 0; out.crashes += 1;
                 drop(cache);
                 cache = LruDiskCache::new(root.clone(), 1 << 30).unwrap();
@@ -192,7 +203,7 @@ fn read_acts(p: &Path) -> Option<Vec<Act>> {
 }
 
 fn main() {
-    quiet_panics();
+    quiet_panics(); raise_nofile();
     let a: Vec<String> = std::env::args().collect();
     match a.get(1).map(|s| s.as_str()) {
         Some("gen") => {
@@ -215,6 +226,7 @@ fn main() {
                 if distinct.insert(o.lines.join(";")) && o.hits > 0 && (o.interleaved || o.crashes > 0) { nontrivial += 1; }
                 if samples.len() < 3 && o.hits > 1 && o.interleaved { samples.push(o.lines.join(" ; ")); }
                 if let Some(f) = o.fails.first() {
+                    if fails.len() >= 6 { continue; }          // enough replays; every further failing case would be shrunk at the cost of hundreds of runs
                     // shrink
                     let mut cur = acts.clone();
                     loop { let mut progressed = false; let mut i = 0;
